@@ -87,6 +87,14 @@ func buildFlavour(swap, pending bool) *tworld {
 	}
 	_, _, err := w.Connect(tw.y, tw.u, 31, 32, 5)
 	must(err)
+	// three more direct peers of R, so that whatever R fans out (announcements,
+	// disconnect notices) goes to several links, with the receive link at every
+	// position of the address order across the worlds.
+	for i := 0; i < 3; i++ {
+		n := mk(fmt.Sprintf("V%d", i), 100+i, config.Store{})
+		_, _, err := w.Connect(tw.r, n, m.SwitchLabel(40+i), m.SwitchLabel(50+i), 5)
+		must(err)
+	}
 	pn, err := w.AddNode("P", privID, config.Store{})
 	must(err)
 	tw.p = pn
